@@ -155,13 +155,14 @@ N1t == TS("n:1")
 N1d == Num(0, "1", "", 0)
 Lt == TS("s:L")
 Ld == Str(C("L"))
-Cols2T == <<<<ca, <<>>>>, <<cb, <<>>>>>>
-Cols2D == <<<<ca, <<>>>>, <<cb, <<>>>>>>
+\* a column tag may be called ver and a grid tag name: only the grid's own ver and a column's own name are special
+Cols2T == <<<<ca, <<>>>>, <<cb, <<<<C("ver"), TS("s:cv")>>>>>>>>
+Cols2D == <<<<ca, <<>>>>, <<cb, <<<<C("ver"), Str(C("cv"))>>>>>>>>
 ColsXYT == <<<<cx, <<>>>>, <<cy, <<>>>>>>
 Row2(ta, tb) == <<<<ca, ta>>, <<cb, tb>>>>
 RowXY(tx, ty) == <<<<cx, tx>>, <<cy, ty>>>>
-DisT == <<<<C("dis"), TS("s:g")>>>>
-DisD == <<<<C("dis"), Str(C("g"))>>>>
+DisT == <<<<C("dis"), TS("s:g")>>, <<C("name"), TS("s:gn")>>>>
+DisD == <<<<C("dis"), Str(C("g"))>>, <<C("name"), Str(C("gn"))>>>>
 
 \* a one-grid document whose cell b of the first row is <<tb, db>>
 CellDoc(ver, fr, tb, db) ==
